@@ -1,4 +1,4 @@
 SPECIFICATION TraceSpec
-INVARIANT I16
+INVARIANT J16
 POSTCONDITION TraceAccepted
 CHECK_DEADLOCK FALSE
